@@ -38,7 +38,7 @@ ASSUMPTIONS = [
 MINIMUMS = {
     'quick': {'evaluations': 1200, 'objects_with>=3_paths': 150, 'cyclic_cases': 80, 'custom_registry_cycles': 15, 'get_all_paths_checked': 5000, 'rebuilds_checked': 3000,
               'paths_checked': 30000, 'tempbox_structures': 100, 'positional_buildables': 100,
-              'idreuse_results_checked': 2500, 'buildables_with_shuffled_kwargs': 400,
+              'idreuse_results_checked': 2500, 'buildables_with_shuffled_kwargs': 400, 'retraversed_after_kwargs_reorder': 200,
               'get_all_paths_requeried_after_caller_edit': 5000},
     'thorough': {'evaluations': 1000},
 }
@@ -394,6 +394,38 @@ def check_structure(root_node, acc, with_tempbox):
       if C.Canon('cfg-exact', sharing=False).go(r) != tree:
         acc.violation(f'{name}:structure-differs:{tag}', 'identity traversal result differs', witness())
     acc.obs('rebuilds_checked')
+  # ---- (f): the same objects again after **kwargs were re-ordered in place -------------
+  # (delete + set moves a **kwargs argument to the end; paths and values must stay in step)
+  moved = 0
+  for o in list(ref_objs.values()):
+    if isinstance(o, Buildable):
+      extra = [k for k in o.__arguments__ if isinstance(k, str) and k.startswith('extra_')]
+      if len(extra) >= 2:
+        k = extra[0]
+        v = o.__arguments__[k]
+        delattr(o, k)
+        setattr(o, k, v)
+        moved += 1
+  if moved and not with_tempbox:
+    acc.obs('retraversed_after_kwargs_reorder')
+    try:
+      for v, path in daglish.iterate(s, memoized=False):
+        if daglish.follow_path(s, path) is not v and daglish.is_memoizable(v):
+          acc.violation(f'iterate-after-kwargs-reorder:path-does-not-lead-to-value:{tag}',
+                        f'path {daglish.path_str(path)} does not lead to the reported value',
+                        witness(path=daglish.path_str(path)))
+          break
+      by_id = daglish.collect_paths_by_id(s, memoizable_only=True)
+      for i, paths in by_id.items():
+        for path in paths:
+          if id(daglish.follow_path(s, path)) != i:
+            acc.violation(f'collect_paths_by_id-after-kwargs-reorder:wrong-path:{tag}',
+                          f'{daglish.path_str(path)} listed for another object', witness())
+            raise StopIteration
+    except StopIteration:
+      pass
+    except Exception as e:  # pylint: disable=broad-except
+      acc.violation(f'retraversal-after-kwargs-reorder:raises:{type(e).__name__}:{tag}', repr(e)[:200], witness())
   if len(acc.samples) < 3 and acc.evaluations % 300 < 2:
     acc.sample({'structure': sketch, 'paths': len(ref)})
 
